@@ -519,6 +519,89 @@ def removal_during_dispatch_case():
     return None
 
 
+def client_rule_semantics_case():
+    """the rule a client registers through DBusClientConnection.addMatch - once the daemon acknowledged it - hands the callback
+    exactly the messages the constraints describe: every constraint key (the message type included), every message"""
+    from twisted.internet import defer
+    from txdbus import client, router
+    rules = [r for r in RULES] + [{'mtype': 'method_call', 'interface': 'org.a.I', 'member': 'Sig'}, {'mtype': 'error'}, {'mtype': 'method_return', 'path': '/a/b'},
+                                  {'mtype': 'signal', 'interface': 'org.a.I', 'member': 'Sig'}]
+    for rule in rules:
+        c = client.DBusClientConnection()
+        c.router = router.MessageRouter()
+        c.match_rules = {}
+        c.callRemote = lambda path, member, **kw: defer.succeed(None)
+        got = []
+        kw = {k: v for k, v in rule.items() if k not in ('args', 'arg_paths')}
+        if 'args' in rule:
+            kw['arg'] = rule['args']
+        if 'arg_paths' in rule:
+            kw['arg_path'] = rule['arg_paths']
+        try:
+            c.addMatch(got.append, **kw)
+        except Exception as e:
+            return 'client addMatch(%r) raised %s: %s' % (kw, type(e).__name__, e)
+        for md in MSGS:
+            del got[:]
+            c.router.routeMessage(FakeMsg(md))
+            want = 1 if ref_matches(rule, md) else 0
+            if len(got) != want:
+                return 'a client rule with the constraints %r was handed %r %d times, expected %d' % (rule, md, len(got), want)
+    return None
+
+
+def proxy_cancel_case():
+    """signal subscriptions of a proxy: each notifyOnSignal returns the id of its rule; cancelling an id - the first one handed
+    out on a connection included - removes that subscription (RemoveMatch sent, the callback is not invoked again) and no other"""
+    from twisted.internet import defer
+    from txdbus import client, interface, objects, router
+    iface = interface.DBusInterface('org.a.P', interface.Signal('S', 's'), interface.Signal('T', 's'), noRegister=True)
+    c = client.DBusClientConnection()
+    c.router = router.MessageRouter()
+    c.match_rules = {}
+    calls = []
+
+    def callRemote(path, member, **kw):
+        calls.append((member, kw.get('body')))
+        return defer.succeed(None)
+    c.callRemote = callRemote
+
+    class H:
+        conn = c
+    o = objects.RemoteDBusObject(H, ':1.1', '/a', [iface])
+    got = {}
+    ids = []
+    for name in ('S', 'T', 'S'):
+        tag = '%s#%d' % (name, len(ids))
+        res = []
+        o.notifyOnSignal(name, lambda *a, tag=tag: got.setdefault(tag, []).append(a)).addCallback(res.append)
+        if len(res) != 1:
+            return 'notifyOnSignal(%s) did not hand out a rule id' % name
+        ids.append((tag, res[0]))
+
+    def emit():
+        got.clear()
+        for name in ('S', 'T'):
+            c.router.routeMessage(FakeMsg({'type': 4, 'interface': 'org.a.P', 'member': name, 'path': '/a', 'signature': 's', 'body': ['x']}))
+        return {t: len(v) for t, v in got.items()}
+    if emit() != {'S#0': 1, 'T#1': 1, 'S#2': 1}:
+        return 'three proxy subscriptions: one emission of S and T invoked %r' % emit()
+    live = dict(ids)
+    for tag, rid in ids:
+        n0 = len([x for x in calls if x[0] == 'RemoveMatch'])
+        try:
+            o.cancelSignalNotification(rid)
+        except Exception as e:
+            return 'cancelSignalNotification(%r) raised %s: %s' % (rid, type(e).__name__, e)
+        del live[tag]
+        if len([x for x in calls if x[0] == 'RemoveMatch']) != n0 + 1:
+            return 'cancelling the subscription with rule id %r sent no RemoveMatch' % (rid,)
+        want = {t: 1 for t in live}
+        if emit() != want:
+            return 'after cancelling the subscription %s (rule id %r) an emission invoked %r, expected %r' % (tag, rid, emit(), want)
+    return None
+
+
 def shared_callback_case():
     """one callback (the same function, bound methods of one object) registered under several rules is invoked once PER MATCHING
     RULE; removing one of the rules takes away exactly that rule's invocation"""
@@ -658,7 +741,7 @@ def bounded(tier, seed):
         f = interleaved_history_case(rnd)
         if f:
             return n, f, {'case': 'interleaved add/remove history'}
-    for case in (client_text_case, client_daemon_consistency_case, daemon_rule_text_case, removal_during_dispatch_case, shared_callback_case, proxy_signature_case):
+    for case in (client_text_case, client_daemon_consistency_case, daemon_rule_text_case, removal_during_dispatch_case, shared_callback_case, client_rule_semantics_case, proxy_cancel_case, proxy_signature_case):
         n += 1
         f = case()
         if f:
